@@ -817,7 +817,13 @@ class LogicalLinkController(object):
             raise err.Error(errno.EOPNOTSUPP)
         while True:
             client = socket.accept()
-            self.sap[client.addr].insert_socket(client)
+            with self.lock:
+                sap = self.sap[client.addr]
+                if sap is None:  # link terminated meanwhile
+                    client.bind(None)
+                    client.close()
+                    raise err.Error(errno.EPIPE)
+                sap.insert_socket(client)
             log.debug("new data link connection ({0} <=== {1})"
                       .format(client.addr, client.peer))
             if client.send_miu > self.cfg['send-miu']:
